@@ -9,8 +9,9 @@ Driver glue for the `Finger` domain.
         task := <nameHex> <labelHex> <method> <prompt> <dir> <ignoreError> <pats> <pats> <k> <guardedGen>{k} <k> <path>{k} <nCmds> (<k> (<path> <contentHex>){k} <need> <ignoreError>){nCmds}
           guardedGen: indices of the generates entries written `${G:?}…` (method checksum only)
         pats := <n> (<neg> <k> <path>{k}){n}
-        step := I <task> <mode> <now> <yes> <fail> <kill> <cancelled> <gset> | W <path> <contentHex> <mtime> | T <path> <mtime>
+        step := I <task> <mode> <now> <yes> <fail> <kill> <cancelled> <gset> <twin> | W <path> <contentHex> <mtime> | T <path> <mtime>
               | D <path> | M <path> <path> | R <dir>
+      twin: 1 = a second activation of the task checks while the first is inside its first command (`twinUp`: s=1 if it is reported up to date);
       gset: 1 = the environment variable G is set (entries `${G:?}…` can be expanded); exit `code1` = the check returned an error;
       cancelled: 1 = the run is cancelled by a failing sibling while the task's status commands run (`Env.cancelled`);
       dir / fail / kill / need: 0 = none, k+1 = some k (need = the path a `task:` call's precondition tests);  method: 0 checksum 1 timestamp 2 none;
@@ -74,8 +75,8 @@ def mode : P Mode := do
 def stepP : P Step := do
   match ← tok with
   | "I" => do
-    let i ← nat; let m ← mode; let now ← nat; let yes ← bool; let f ← optNat; let k ← optNat; let c ← bool; let g ← bool
-    pure (.inv i m ⟨now, yes, f, k, c, g⟩)
+    let i ← nat; let m ← mode; let now ← nat; let yes ← bool; let f ← optNat; let k ← optNat; let c ← bool; let g ← bool; let tw ← bool
+    pure (.inv i m ⟨now, yes, f, k, c, g, tw⟩)
   | "W" => do let p ← nat; let c ← bytes; let mt ← nat; pure (.op (.write p c mt))
   | "T" => do let p ← nat; let mt ← nat; pure (.op (.touch p mt))
   | "D" => do let p ← nat; pure (.op (.delete p))
@@ -133,8 +134,10 @@ def render (pr : Proj) : List Step → State → List String
   | [], _ => []
   | st :: rest, s =>
     let r := step Cfg.fixed hId pr st s
+    -- (a second activation reported up to date prints the same message: `s=1` although commands ran)
+    let tw := match st with | .inv i .run e => twinUp hId pr i e s | _ => false
     let seg := match r.2 with
-      | some o => showObs o ++ " g=" ++ goodBit pr s st ++ " ; " ++ showState r.1
+      | some o => showObs { o with skipped := o.skipped || tw } ++ " g=" ++ goodBit pr s st ++ " ; " ++ showState r.1
       | none => showState r.1
     seg :: render pr rest r.1
 
